@@ -126,6 +126,9 @@ func (dist *GeometricDistribution) ImportConfig(config ConfigDistribution, t Sca
   if parameters, ok := config.GetParametersAsFloats(); !ok {
     return fmt.Errorf("invalid config file")
   } else {
+    if len(parameters) != 1 {
+      return fmt.Errorf("invalid config file")
+    }
     p := NewScalar(t, parameters[0])
 
     if tmp, err := NewGeometricDistribution(p); err != nil {
